@@ -1,8 +1,8 @@
 #include <stdint.h>
-__thread int gd_a = 7; __thread long gd_b[4] = {7, 360, 436, 348}; __thread char gd_z[7];
+__thread int gd_a = 269; __thread long gd_b[2] = {269, 187}; __thread char gd_z[64];
 extern __thread int tl0; extern __thread int lib_tls;
 int tlsd_get(void){ return gd_a * 3 + gd_z[0]; }
 void tlsd_bump(int v){ gd_a += v; gd_b[1] += tl0; gd_z[0] += 2; lib_tls += v; }
-long tlsd_sum(void){ long t = gd_z[0]; for (int i = 0; i < 4; i++) t = t * 31 + gd_b[i]; return t + lib_tls; }
+long tlsd_sum(void){ long t = gd_z[0]; for (int i = 0; i < 2; i++) t = t * 31 + gd_b[i]; return t + lib_tls; }
 int *tlsd_addr(void){ return &gd_a; } int *tlsd_tl0_addr(void){ return &tl0; } long tlsd_gap(void){ return (char*)&gd_b[1] - (char*)&gd_b[0]; }
 unsigned tlsd_align(void){ return (unsigned)((uintptr_t)&gd_b[0] % __alignof__(long)); }
